@@ -10,8 +10,8 @@ for d in seeded/*/; do
   id=$(basename $d); prop=${id%%-*}
   [ -n "$1" ] && [[ "$id" != $1* ]] && continue
   expect=caught; grep -q '"detection": "MISSED' $d/meta.json && expect=missed
-  if ! git -C /repo apply --check $d/patch.diff 2>/dev/null; then echo "$id: patch no longer applies (tree has moved on: e.g. a later fix touched the same lines) -- skipped"; continue; fi
-  git -C /repo apply $d/patch.diff
+  if ! git -C /repo apply --check $PWD/$d/patch.diff 2>/dev/null; then echo "$id: patch no longer applies (tree has moved on: e.g. a later fix touched the same lines) -- skipped"; continue; fi
+  git -C /repo apply $PWD/$d/patch.diff
   out=$(./check $prop quick 2>&1); n=$(echo "$out" | grep -c '^VIOLATION')
   git -C /repo checkout -- .
   got=missed; [ "$n" -gt 0 ] && got=caught
